@@ -42,7 +42,8 @@ def mutations(enc):
 def float_inputs(bits, rng):
     """big-endian FLOAT4 / FLOAT8 images around the values that matter for from_sql (ties, range end, specials)."""
     out = []
-    mx = (1 << bits) - 1
+    mx = (1 << min(bits, 1000)) - 1          # beyond the double range the width's maximum is not a float anyway
+    bits = min(bits, 1000)
     cands = [0.0, -0.0, 0.25, 0.49999999, 0.5, 0.75, 1.0, 1.5, 2.5, 3.5, -0.25, -0.5, -0.75, -1.0, 255.5, 256.5, 65535.5,
              float(mx), float(mx) + 0.5, float(mx) + 1.0, float(mx >> 1), float(1 << bits), float(1 << bits) - 0.5,
              float((1 << bits) * 2), 2.0 ** 24 - 1, 2.0 ** 24 + 2, 2.0 ** 53 - 1, 2.0 ** 53 + 2, 2.0 ** 63, 2.0 ** 64, 2.0 ** 127,
@@ -133,7 +134,11 @@ def scenarios(tier, rng):
                    [3], [7], [0xff], [0xfd, 1, 2, 3], [0x13, 1, 2, 3, 4, 5, 6, 7, 8], [0x33] + [0xff] * 16, [0x0b, 0, 0, 0, 0, 1, 0, 0, 1],
                    [ord(c) for c in '"'], [ord(c) for c in '"0x"'], [ord(c) for c in '0x'], [ord(c) for c in '"0xg"'], [ord(c) for c in '""'],
                    [ord(c) for c in '1e3'], [ord(c) for c in '-1'], [ord(c) for c in ' 12 '], [ord(c) for c in '"12'], [ord(c) for c in 'null'],
-                   [ord(c) for c in '[1]'], [0xc3, 0xa9], [ord(c) for c in '"\\u0031"'], [2] + [ord(c) for c in '"0x1"'], [1]]
+                   [ord(c) for c in '[1]'], [0xc3, 0xa9],
+                   # multi-byte UTF-8 around the position where FromStr looks for a two-byte prefix
+                   list("1é".encode()), list("€5".encode()), list("0×10".encode()), list("😀".encode()), list("0é".encode()),
+                   list("é1".encode()), list("１２".encode()), list('"1é"'.encode()), list('"€"'.encode()), list('"0×10"'.encode()),
+                   list('"😀"'.encode()), [1] + list('"1é"'.encode()), list("0xé".encode()), list('"0xé"'.encode()), [ord(c) for c in '"\\u0031"'], [2] + [ord(c) for c in '"0x1"'], [1]]
         inputs += float_inputs(bits, rng) + money_inputs() + bit_header_inputs(bits, rng)
         for _ in range(40 if quick else 400):
             ln = rng.randrange(0, nb + 17)
